@@ -143,8 +143,11 @@ class YamlDocument(HierDictDocument):
         return value
 
     def _ret_bool(self, _, value):
-        if value is None or value in (True, False):
-            return value
+        if value is None:
+            return None
+        if value in (True, False):
+            # 0, 1, 0.0 and 1.0 compare equal to booleans: hand a bool over
+            return bool(value)
         raise ValidationError(value)
 
     def create_in_document(self, ctx, in_string_encoding=None):
